@@ -425,9 +425,9 @@ def stream_doc_chains(ctx, res):
     rng = ctx.rng
     dist = res["distribution"]
     jobs = []
-    for _ in range(ctx.n(80, 2000)):
-        chain = [rng.choice([0, 1, 2, 4]) for _ in range(rng.randint(1, 5))]
-        chain[rng.randrange(len(chain))] = 2
+    for _ in range(ctx.n(60, 2000)):
+        chain = [rng.choice([0, 1, 2, 3, 4]) for _ in range(rng.randint(1, 5))]
+        chain[rng.randrange(len(chain))] = rng.choice([2, 3])        # round 4: SAMI hops too
         t = rng.choice([0, 1, 999, 40000, 59999999, 3599999000, rng.randrange(0, 80000 * 10**6)])
         caps = []
         for _ in range(rng.choice([1, 2, 3, 5])):
@@ -464,6 +464,7 @@ def stream_doc_chains(ctx, res):
                                          "impl": real.v if isinstance(real, Ok) else repr(real)})
         res["nontrivial"].add(("doc-chain", tuple(chain), tuple((a, b) for (a, b, _) in caps)))
     dist["document_level_chains_with_dfxp_hops_compared"] = ncmp
+    dist["document_level_chains_with_a_sami_hop"] = sum(1 for (ch, _) in jobs if 3 in ch)
 
 # ---- last round: zero-margin layouts through WebVTT; WebVTT time shift on the writer's own output ----------------------
 def stream_last_round(ctx, res):
@@ -566,7 +567,7 @@ def run(ctx):
     NONINT[0] = 0
     jobs = []
     pairs = list(itertools.product(range(5), repeat=2))
-    per_pair = ctx.n(64, 600)
+    per_pair = ctx.n(58, 600)
     for (a, b) in pairs:
         for _ in range(per_pair):
             jobs.append([a, b])
@@ -803,6 +804,8 @@ def run(ctx):
                     "returns every caption floored to the ms with its text lines (C08_dfxp_roundtrip_string); every chain "
                     "of SRT / MicroDVD / WebVTT / DFXP document hops = closed-form times and unchanged text lines "
                     "(C08_chain_doc_text_four_formats)",
+                    "SAMI hop at DOCUMENT level (round 4): C08_sami_roundtrip_string; every chain of document hops over all FIVE "
+                    "formats = the spec's times and unchanged text lines (C08_chain_doc_text_five_formats)",
                     "token level: writer model then reader model = floor to the format's unit (SRT, WebVTT, DFXP, MicroDVD)",
                     "cue-list level incl. SRT merge loop and SAMI sync rule + back-filling: a model hop is pi_F on the "
                     "domain; a chain of model hops is the closed form; a SECOND chain of model hops returns the same "
